@@ -13,7 +13,8 @@ exact on that input) the MODEL (`Model/BoxTransform.lean`) is evaluated at exact
 bounds of the element type, and compared with the real output EXACTLY.
 
 stdout: `DIFF <line-number> <overload> model=<6 rationals> real=<6 rationals>` (first 20) and
-`MODEL lines=<n> compared=<n> diffs=<n> ovl0=<n> ovl1=<n> ovl2=<n> ovl3=<n> empty=<n> infinite=<n> affine=<n> projective=<n>`.
+`MODEL lines=<n> compared=<n> diffs=<n> ovl0..3=<n> empty=<n> infinite=<n> affine=<n> projective=<n> single0..3=<n>`
+(`single<i>`: compared cases in which term i of the affine test `m[0][3]==0 && m[1][3]==0 && m[2][3]==0 && m[3][3]==1` is the only failing term).
 
 `case <overload> <d|f> <28 numbers: box, matrix, old result>` (argv; numbers `n`, `n/d` or `x<hex>`) prints the model's result.
 -/
@@ -77,6 +78,8 @@ structure Stats where
   infinite : Nat := 0
   affine : Nat := 0
   projective : Nat := 0
+  /-- exact, non-empty, non-infinite cases in which term i of the affine test is the ONLY failing term -/
+  single : Array Nat := #[0, 0, 0, 0]
 
 partial def loop (h : IO.FS.Stream) (out : IO.FS.Stream) (st : Stats) (ln : Nat) : IO Stats := do
   let line ← h.getLine
@@ -98,6 +101,11 @@ partial def loop (h : IO.FS.Stream) (out : IO.FS.Stream) (st : Stats) (ln : Nat)
       let real := boxOf a 28
       let model := runModel ovl tmax b m r
       let eoi := emptyOrInfinite tmax (-tmax) b
+      let terms := #[decide (m.x03 = 0), decide (m.x13 = 0), decide (m.x23 = 0), decide (m.x33 = 1)]
+      let nfail := (terms.filter (! ·)).size
+      let st := if !eoi && nfail == 1 then
+          { st with single := (List.range 4).foldl (fun a i => if !terms[i]! then a.modify i (· + 1) else a) st.single }
+        else st
       let st := { st with compared := st.compared + 1, ovl := st.ovl.modify ovl (· + 1),
                           empty := st.empty + (if Gen.Box3.isEmpty b then 1 else 0),
                           infinite := st.infinite + (if Gen.Box3.isInfinite tmax (-tmax) b then 1 else 0),
@@ -121,4 +129,4 @@ def main (args : List String) : IO Unit := do
   | _ =>
     let h ← IO.getStdin
     let st ← loop h out {} 1
-    out.putStrLn s!"MODEL lines={st.lines} compared={st.compared} diffs={st.diffs} ovl0={st.ovl[0]!} ovl1={st.ovl[1]!} ovl2={st.ovl[2]!} ovl3={st.ovl[3]!} empty={st.empty} infinite={st.infinite} affine={st.affine} projective={st.projective}"
+    out.putStrLn s!"MODEL lines={st.lines} compared={st.compared} diffs={st.diffs} ovl0={st.ovl[0]!} ovl1={st.ovl[1]!} ovl2={st.ovl[2]!} ovl3={st.ovl[3]!} empty={st.empty} infinite={st.infinite} affine={st.affine} projective={st.projective} single0={st.single[0]!} single1={st.single[1]!} single2={st.single[2]!} single3={st.single[3]!}"
